@@ -52,6 +52,8 @@ struct StreamPlan {
     read_chunk: usize,
     /// µs the reader pauses between reads
     read_pause: u64,
+    /// µs between the last write and `finish()` (the connection may have gone idle by then)
+    finish_pause: u64,
 }
 
 #[derive(Clone, Copy, Debug, PartialEq)]
@@ -79,6 +81,7 @@ fn gen_stream() -> StreamPlan {
         write_chunk: [1usize, 17, 1200, 5000, 100_000][sim::choose("stream.wchunk", 5)].max(len / 300 + 1),
         read_chunk: [1usize, 33, 1200, 9000, 100_000][sim::choose("stream.rchunk", 5)].max(len / 300 + 1),
         read_pause: [0u64, 0, 20, 500][sim::choose("stream.pause", 4)],
+        finish_pause: [0u64, 0, 300, 50_000][sim::choose("stream.finish.pause", 4)],
     }
 }
 
@@ -89,6 +92,7 @@ fn quic() -> RunResult {
     // the network: QUIC recovers from loss and duplication
     cfg.udp_loss = [0u32, 0, 2, 8][sim::choose("net.loss", 4)];
     cfg.udp_dup = [0u32, 0, 2][sim::choose("net.dup", 3)];
+    let lossy = cfg.udp_loss > 0;
     let streams: Vec<StreamPlan> = (0..sim::range("streams", 0, 4)).map(|_| gen_stream()).collect();
     let dgrams_c: Vec<usize> = (0..sim::range("dgrams.client", 0, 3)).map(|_| 1 + sim::range("dgram.len", 0, 900) as usize).collect();
     let dgrams_s: Vec<usize> = (0..sim::range("dgrams.server", 0, 3)).map(|_| 1 + sim::range("dgram.len", 0, 900) as usize).collect();
@@ -101,9 +105,12 @@ fn quic() -> RunResult {
         3 => Close::ServerConn(sim::range("close.at", 0, 3000)),
         _ => Close::ServerEndpoint(sim::range("close.at", 0, 3000)),
     };
+    // the streams opened last (as many as the limit allows at once) stay open until every stream of their
+    // direction is open: a task waiting for a stream credit then depends on being woken for it
+    let hold_last = sim::flip("hold.last", 1, 3);
     let capacity = 1u32 << sim::range("ring.capacity.log2", 1, 5);
     let seed = sim::subseed("payload");
-    sim::log(|| format!("ring capacity {capacity}; windows conn {recv_window} stream {stream_window}, max concurrent streams {max_streams}; close {close:?}; {cfg:?}"));
+    sim::log(|| format!("ring capacity {capacity}; hold the last streams open: {hold_last}; windows conn {recv_window} stream {stream_window}, max concurrent streams {max_streams}; close {close:?}; {cfg:?}"));
     sim::log(|| format!("streams {streams:?}; datagrams client {dgrams_c:?} server {dgrams_s:?}"));
     let errs = Errs::default();
     let end = run_on_kernel(cfg, {
@@ -133,7 +140,11 @@ fn quic() -> RunResult {
                 let Ok(client_ep) = Endpoint::client("127.0.0.1:0").await else { return };
                 let Ok(saddr) = server_ep.local_addr() else { return };
                 let saddr = SocketAddr::new(IpAddr::V4(Ipv4Addr::LOCALHOST), saddr.port());
-                let closed = Rc::new(std::cell::Cell::new(false));
+                // (a side has closed the connection or the endpoint; the network of this run loses datagrams)
+                let closed = Rc::new((std::cell::Cell::new(false), lossy));
+                // streams the server has read to their end; streams the client has opened, per direction
+                let served = Rc::new(std::cell::Cell::new(0usize));
+                let opened = Rc::new(std::cell::Cell::new([0usize; 2]));
                 // (datagram payloads start with their index, so that two of them never look alike)
                 let payload = move |k: usize, dir: u64, len: usize| {
                     let mut v = vec![k as u8];
@@ -143,14 +154,14 @@ fn quic() -> RunResult {
 
                 // ---------------- server
                 let server = {
-                    let (errs, streams, dgrams_s, dgrams_c, closed) = (errs.clone(), streams.clone(), dgrams_s.clone(), dgrams_c.clone(), closed.clone());
+                    let (errs, streams, dgrams_s, dgrams_c, closed, served) = (errs.clone(), streams.clone(), dgrams_s.clone(), dgrams_c.clone(), closed.clone(), served.clone());
                     let server_ep = server_ep.clone();
                     compio_runtime::spawn(async move {
                         let Some(incoming) = server_ep.wait_incoming().await else { return };
                         let conn = match incoming.await {
                             Ok(c) => c,
                             Err(e) => {
-                                if !closed.get() {
+                                if !closed.0.get() {
                                     errs.push("handshake", format!("the server side of the handshake failed: {e}"));
                                 }
                                 return;
@@ -180,28 +191,36 @@ fn quic() -> RunResult {
                         let n_uni = streams.iter().filter(|s| !s.bidi).count();
                         let n_bi = streams.len() - n_uni;
                         for _ in 0..n_uni {
-                            let (conn, errs, streams, closed) = (conn.clone(), errs.clone(), streams.clone(), closed.clone());
+                            let (conn, errs, streams, closed, served) = (conn.clone(), errs.clone(), streams.clone(), closed.clone(), served.clone());
                             tasks.push(compio_runtime::spawn(async move {
-                                let Ok(mut rx) = conn.accept_uni().await else { return };
+                                let mut rx = match conn.accept_uni().await {
+                                    Ok(rx) => rx,
+                                    Err(e) => return broken(&errs, &closed, "accept_uni", &e),
+                                };
                                 serve(&mut rx, None, &streams, &errs, &closed, seed).await;
+                                served.set(served.get() + 1);
                             }));
                         }
                         for _ in 0..n_bi {
-                            let (conn, errs, streams, closed) = (conn.clone(), errs.clone(), streams.clone(), closed.clone());
+                            let (conn, errs, streams, closed, served) = (conn.clone(), errs.clone(), streams.clone(), closed.clone(), served.clone());
                             tasks.push(compio_runtime::spawn(async move {
-                                let Ok((mut tx, mut rx)) = conn.accept_bi().await else { return };
+                                let (mut tx, mut rx) = match conn.accept_bi().await {
+                                    Ok(p) => p,
+                                    Err(e) => return broken(&errs, &closed, "accept_bi", &e),
+                                };
                                 serve(&mut rx, Some(&mut tx), &streams, &errs, &closed, seed).await;
+                                served.set(served.get() + 1);
                             }));
                         }
                         match close {
                             Close::ServerConn(at) => {
                                 sleep(Duration::from_micros(at)).await;
-                                closed.set(true);
+                                closed.0.set(true);
                                 conn.close(VarInt::from_u32(7), b"server closes");
                             }
                             Close::ServerEndpoint(at) => {
                                 sleep(Duration::from_micros(at)).await;
-                                closed.set(true);
+                                closed.0.set(true);
                                 server_ep.close(VarInt::from_u32(8), b"endpoint closes");
                             }
                             _ => {}
@@ -218,7 +237,7 @@ fn quic() -> RunResult {
 
                 // ---------------- client
                 let client = {
-                    let (errs, streams, dgrams_c, dgrams_s, closed) = (errs.clone(), streams.clone(), dgrams_c.clone(), dgrams_s.clone(), closed.clone());
+                    let (errs, streams, dgrams_c, dgrams_s, closed, served, opened) = (errs.clone(), streams.clone(), dgrams_c.clone(), dgrams_s.clone(), closed.clone(), served.clone(), opened.clone());
                     let client_ep = client_ep.clone();
                     compio_runtime::spawn(async move {
                         let connecting = match client_ep.connect(saddr, "localhost", Some(client_config)) {
@@ -231,7 +250,7 @@ fn quic() -> RunResult {
                         let conn = match connecting.await {
                             Ok(c) => c,
                             Err(e) => {
-                                if !closed.get() {
+                                if !closed.0.get() {
                                     errs.push("handshake", format!("the client side of the handshake failed: {e}"));
                                 }
                                 return;
@@ -254,20 +273,28 @@ fn quic() -> RunResult {
                                 }
                             }));
                         }
+                        let n_dir = [streams.iter().filter(|s| s.bidi).count(), streams.iter().filter(|s| !s.bidi).count()];
                         for (k, s) in streams.iter().cloned().enumerate() {
-                            let (conn, errs, closed) = (conn.clone(), errs.clone(), closed.clone());
+                            let (conn, errs, closed, opened) = (conn.clone(), errs.clone(), closed.clone(), opened.clone());
                             tasks.push(compio_runtime::spawn(async move {
                                 let (mut tx, rx) = if s.bidi {
                                     match conn.open_bi_wait().await {
                                         Ok((t, r)) => (t, Some(r)),
-                                        Err(_) => return,
+                                        Err(e) => return broken(&errs, &closed, "open_bi_wait", &e),
                                     }
                                 } else {
                                     match conn.open_uni_wait().await {
                                         Ok(t) => (t, None),
-                                        Err(_) => return,
+                                        Err(e) => return broken(&errs, &closed, "open_uni_wait", &e),
                                     }
                                 };
+                                let dir = if s.bidi { 0 } else { 1 };
+                                let rank = opened.get()[dir];
+                                opened.set({
+                                    let mut o = opened.get();
+                                    o[dir] += 1;
+                                    o
+                                });
                                 // header: which stream of the plan this is
                                 let mut data = vec![k as u8, 0xA5];
                                 data.extend_from_slice(&sim::payload(seed ^ ((k as u64 + 1) << 16) ^ 0xc5, s.len));
@@ -281,8 +308,28 @@ fn quic() -> RunResult {
                                                 errs.push("count", format!("stream {k}: write of {n} bytes reported {w}"));
                                                 return false;
                                             }
-                                            BufResult(Err(_), _) => return false, // reset / connection closed
+                                            BufResult(Err(e), _) => {
+                                                broken(&errs, &closed, &format!("stream {k}: write"), &e);
+                                                return false;
+                                            }
                                         }
+                                    }
+                                    if hold_last && rank + max_streams as usize >= n_dir[dir] {
+                                        // one of the last streams: stays open until all of its direction are
+                                        let mut nap = 50u64;
+                                        let mut waited = 0u64;
+                                        while opened.get()[dir] < n_dir[dir] && !closed.0.get() && conn.close_reason().is_none() {
+                                            if waited > BOUND.as_micros() as u64 {
+                                                errs.push("stranded", format!("stream {k} (opened as number {rank} of its direction, limit {max_streams}) is held open until all {} are open; {BOUND:?} later only {} are: a task waiting in open_*_wait was not served although the limit allows it", n_dir[dir], opened.get()[dir]));
+                                                return false;
+                                            }
+                                            sleep(Duration::from_micros(nap)).await;
+                                            waited += nap;
+                                            nap = (nap * 2).min(100_000);
+                                        }
+                                    }
+                                    if s.finish_pause > 0 {
+                                        sleep(Duration::from_micros(s.finish_pause)).await;
                                     }
                                     tx.finish().is_ok()
                                 };
@@ -294,7 +341,7 @@ fn quic() -> RunResult {
                                         match rx.read(Vec::with_capacity(s.read_chunk)).await {
                                             BufResult(Ok(0), _) => break,
                                             BufResult(Ok(_), b) => got.extend_from_slice(&b),
-                                            BufResult(Err(_), _) => return,
+                                            BufResult(Err(e), _) => return broken(&errs, &closed, &format!("stream {k}: read of the echo"), &e),
                                         }
                                     }
                                     if got != data {
@@ -302,12 +349,11 @@ fn quic() -> RunResult {
                                     }
                                 };
                                 let (_, _) = futures_util::join!(wr, rd);
-                                let _ = closed;
                             }));
                         }
                         if let Close::ClientConn(at) = close {
                             sleep(Duration::from_micros(at)).await;
-                            closed.set(true);
+                            closed.0.set(true);
                             conn.close(VarInt::from_u32(9), b"client closes");
                         }
                         let n = tasks.len();
@@ -317,12 +363,23 @@ fn quic() -> RunResult {
                                 continue;
                             }
                             if timeout(BOUND, t).await.is_err() {
-                                errs.push("stranded", format!("client task {i} of {n} (streams and datagrams) was still pending {BOUND:?} after {}", if closed.get() { "the connection was closed" } else { "it started" }));
+                                errs.push("stranded", format!("client task {i} of {n} (streams and datagrams) was still pending {BOUND:?} after {}", if closed.0.get() { "the connection was closed" } else { "it started" }));
                                 return;
                             }
                         }
                         if close == Close::AtEnd {
-                            closed.set(true);
+                            // finishing a stream yields end-of-stream on the peer: the server reads every stream to its end
+                            let (mut nap, mut waited) = (50u64, 0u64);
+                            while served.get() < streams.len() && errs.is_empty() && conn.close_reason().is_none() {
+                                if waited > BOUND.as_micros() as u64 {
+                                    errs.push("stranded", format!("the client wrote and finished {} streams; {BOUND:?} later the server has read only {} of them to their end", streams.len(), served.get()));
+                                    break;
+                                }
+                                sleep(Duration::from_micros(nap)).await;
+                                waited += nap;
+                                nap = (nap * 2).min(100_000);
+                            }
+                            closed.0.set(true);
                             conn.close(VarInt::from_u32(0), b"done");
                         }
                     })
@@ -341,7 +398,7 @@ fn quic() -> RunResult {
 
 /// The server's side of one stream: read everything (chunked, paced), check it against the plan named
 /// in the header, echo it on a bidirectional stream.
-async fn serve(rx: &mut compio_quic::RecvStream, mut tx: Option<&mut compio_quic::SendStream>, streams: &[StreamPlan], errs: &Errs, closed: &Rc<std::cell::Cell<bool>>, seed: u64) {
+async fn serve(rx: &mut compio_quic::RecvStream, mut tx: Option<&mut compio_quic::SendStream>, streams: &[StreamPlan], errs: &Errs, closed: &Rc<(std::cell::Cell<bool>, bool)>, seed: u64) {
     let mut got: Vec<u8> = Vec::new();
     let mut plan: Option<(usize, StreamPlan)> = None;
     let mut clean_end = false;
@@ -380,10 +437,18 @@ async fn serve(rx: &mut compio_quic::RecvStream, mut tx: Option<&mut compio_quic
                     }
                 }
             }
-            BufResult(Err(_), _) => break, // reset, or the connection was closed
+            BufResult(Err(e), _) => {
+                broken(errs, closed, "server: read", &e);
+                break;
+            }
         }
     }
     if let Some(tx) = tx.as_deref_mut() {
+        if let Some((_, p)) = &plan {
+            if clean_end && p.finish_pause > 0 {
+                sleep(Duration::from_micros(p.finish_pause)).await;
+            }
+        }
         let _ = tx.finish();
     }
     if let Some((k, p)) = plan {
@@ -399,5 +464,13 @@ async fn serve(rx: &mut compio_quic::RecvStream, mut tx: Option<&mut compio_quic
     } else if clean_end && !got.is_empty() {
         errs.push("stream-content", format!("a stream ended after {} bytes, less than a header", got.len()));
     }
-    let _ = closed;
+}
+
+/// An operation failed: fine once a side has closed the connection or the endpoint, a broken connection
+/// before that — unless the network loses datagrams: enough of them lost in a row let a connection time out,
+/// which is QUIC's answer to such a network and not a defect (the runs without loss are the judge of this).
+fn broken(errs: &Errs, closed: &Rc<(std::cell::Cell<bool>, bool)>, what: &str, e: &dyn std::fmt::Display) {
+    if !closed.0.get() && !closed.1 {
+        errs.push("stream-broken", format!("{what} failed with ({e}) although nobody has closed the connection"));
+    }
 }
